@@ -585,6 +585,15 @@ def alphabet(p, out=None):
     return out
 
 
+def leaves(p):
+    if p[0] == 'e':
+        return [p[1]]
+    out = []
+    for c in p[1]:
+        out.extend(leaves(c))
+    return out
+
+
 def build():
     sch = Schema()
     st = SimpleTypes(sch)
@@ -633,6 +642,8 @@ def emit(path_tla, path_json):
         L.append('CMTree_%s == %s' % (ident(k), tree_tla(trees[k])))
     L.append('CMTree == ' + fun([(k, 'CMTree_%s' % ident(k)) for k in sorted(trees)]))
     L.append('Alphabet == ' + fun([(k, tseq(q(a) for a in alphabet(trees[k]))) for k in sorted(trees)]))
+    # leaf names of the particle tree in document order (forward=j addresses the j-th leaf of a name)
+    L.append('Leaves == ' + fun([(k, tseq(q(a) for a in leaves(trees[k]))) for k in sorted(trees)]))
     L.append('ElemNames == %s' % tset(q(k) for k in sorted(sch.elemtype)))
     L.append('ElemType == ' + fun([(k, q(v)) for k, v in sorted(sch.elemtype.items())]))
     L.append('ElemKind == ' + fun([(k, q(v)) for k, v in sorted(elemkind.items())]))
@@ -684,7 +695,7 @@ def emit(path_tla, path_json):
     J = dict(
         cm={k: dict(lab=g.lab, first=sorted(g.first), last=sorted(g.last), nullable=g.nullable,
                     follow={str(p): v for p, v in g.fol().items()}) for k, g in cm.items()},
-        trees=trees, alphabet={k: alphabet(trees[k]) for k in trees},
+        trees=trees, alphabet={k: alphabet(trees[k]) for k in trees}, leaves={k: leaves(trees[k]) for k in trees},
         elemtype=sch.elemtype, elemkind=elemkind, decls=sch.decls,
         attrs={k: sorted(set(v)) for k, v in attrs.items()}, sbase=sbase, hastext=hastext,
         st=st.table, pats=[dict(src=s, lab=[list(map(list, x)) for x in g.lab], first=sorted(g.first),
